@@ -301,13 +301,42 @@ void execute_queue(const Plan &plan, Verdict &v, Mode mode) {
             int code = 0;
             size_t lenarg = 0;
             bool has_s = false;
+            bool clear = false;   // SCPI_ErrorClear instead of a push
             std::string text;
         } armed;
+        // firmware that refills the SCPI queue from its own backlog when told (error callback with 0) that the queue ran empty
+        long refill_left = clampl(plan.k("errcb_refill", 0), 0, 3);
+        bool cls_cleared_early = false;
         bool early_pop_valid = false;
         Entry early_pop;
         int early_before = 0;
         w.err_observer = [&](World &ww, int code) {
-            if (code == 0 || fw_push_active) return;
+            if (code == 0) {
+                if (refill_left <= 0 || v.violated) return;
+                refill_left--;
+                // bring the reference FIFO to the point the library is at: the entry was taken / the queue cleared before the notification
+                UnitRec *u = ww.in_handler ? ww.unit() : nullptr;
+                if (u && u->tag == tag_next && !early_pop_valid) {
+                    early_before = (int) run.q.size();
+                    early_pop = run.model_pop();
+                    early_pop_valid = true;
+                } else if (u && u->tag == tag_cls && !cls_cleared_early) {
+                    run.q.clear();
+                    cls_cleared_early = true;
+                }
+                int rcode = -(int) (300 + refill_left);
+                bool saved = fw_push_active;
+                fw_push_active = true;
+                ww.fw_push(rcode, "backlog", 0);
+                fw_push_active = saved;
+                bool failed = g_alloc.last_failed;
+                g_alloc.last_failed = false;
+                run.model_push(rcode, true, "backlog", failed, false, true);
+                run.expect_echo = false;
+                COUNT("fault_push_inside_error_callback_on_empty");
+                return;
+            }
+            if (fw_push_active) return;
             if (code == -350 && run.expect_echo) {
                 run.expect_echo = false;
                 return;
@@ -354,7 +383,8 @@ void execute_queue(const Plan &plan, Verdict &v, Mode mode) {
                                fmt("SYST:ERR:COUN? wrote %s, reference FIFO holds %zu", c_escape(uout).c_str(), run.q.size()));
                 } else if (u->tag == tag_cls) {
                     if (!run.q.empty() && run.live_expected() > 0) COUNT("probe_clear_with_texts_pending");
-                    run.q.clear();
+                    if (!cls_cleared_early) run.q.clear();
+                    cls_cleared_early = false;
                 }
                 run.check_count("after handler");
                 handlers_seen++;
@@ -375,6 +405,13 @@ void execute_queue(const Plan &plan, Verdict &v, Mode mode) {
                 early_pop = run.model_pop();
                 early_pop_valid = true;
                 COUNT("probe_push_while_error_response_is_sent");
+            }
+            if (armed.clear) {
+                // the queue is cleared from inside the transmit path (e.g. a device-clear arriving on another channel)
+                run.q.clear();
+                ww.fw_clear();
+                COUNT("fault_clear_inside_write_callback");
+                return;
             }
             std::string text = armed.text;
             size_t nul = text.find('\0');
@@ -469,8 +506,8 @@ void execute_queue(const Plan &plan, Verdict &v, Mode mode) {
                 COUNT("fw_pop");
             } else if (op.kind == "clear") {
                 if (!run.q.empty() && run.live_expected() > 0) COUNT("probe_clear_with_texts_pending");
+                run.q.clear();   // before the call: a refill from the error callback lands in the emptied queue
                 w.fw_clear();
-                run.q.clear();
                 run.check_count("after clear");
             } else if (op.kind == "count") {
                 w.fw_count();
@@ -482,6 +519,14 @@ void execute_queue(const Plan &plan, Verdict &v, Mode mode) {
                 armed.lenarg = (size_t) clampl(op.arg(2), 0, 1000);
                 armed.has_s = op.has_s;
                 armed.text = op.s;
+                armed.clear = false;
+            } else if (op.kind == "wrclear") {
+                // not together with a refilling error callback: the clear would then be followed by a push while SYST:ERR? still
+                // holds the text it took out, i.e. texts would be released out of allocation order (see DESIGN 6b, "seen, not claimed")
+                if (plan.k("errcb_refill", 0) != 0) continue;
+                armed.on = true;
+                armed.countdown = clampl(op.arg(0), 0, 12);
+                armed.clear = true;
             } else if (op.kind == "allocfail") {
                 // fail the k-th text allocation from now (lands in a parser push when followed by a message)
                 g_alloc.fail_countdown = clampl(op.arg(0), 0, 5);
@@ -617,6 +662,7 @@ void generate_queue(Rng &r, const GenOpts &g, Plan &p, Mode mode) {
         p.knob["heap"] = mode == M_C18 ? (r.chance(1, 2) ? 600 : r.range(16, 300)) : (r.chance(1, 8) ? 600 : (r.chance(1, 2) ? r.range(2, 12) : r.range(2, 64)));
     }
     if (r.chance(1, 6)) p.knob["wr_mode"] = r.range(1, 3);
+    if (r.chance(1, 8)) p.knob["errcb_refill"] = r.range(1, 3);
     long n;
     if (r.chance(1, 40))
         n = r.range(100, thorough ? 10000 : 1500);
@@ -702,7 +748,8 @@ void generate_queue(Rng &r, const GenOpts &g, Plan &p, Mode mode) {
                 p.ops.push_back(Op("msg", {}, gen_queue_msg(r, uniq)));
                 break;
             default:
-                if (r.chance(1, 5)) {
+                if (p.k("errcb_refill", 0) == 0 && r.chance(1, 20)) p.ops.push_back(Op("wrclear", {(long) r.below(7)}));
+                else if (r.chance(1, 5)) {
                     if (r.chance(1, 4))
                         p.ops.push_back(Op("wrpush", {(long) r.below(7), (long) gen_code(r), 0}));
                     else
